@@ -43,13 +43,14 @@ Definition hp_inv (st : node) : Prop :=
 
 Lemma nstep_hp_inv exec st op : hp_inv st -> hp_inv (nstep exec st op).
 Proof.
-  unfold hp_inv. destruct op as [|c d]; simpl.
+  unfold hp_inv. destruct op as [|c d|c]; simpl.
   - intros _. rewrite app_length. simpl. lia.
   - destruct (Nat.ltb_spec c (length (bufs st))) as [Hc|Hc]; [|auto].
     destruct (feed_fix (nth c (bufs st) []) d) as [[hs r] s].
     destruct (hp st) as [t|] eqn:Eh; simpl; rewrite ?Eh.
     + rewrite upd_length. auto.
     + intro H. rewrite H in Hc. simpl in Hc. lia.
+  - auto.
 Qed.
 
 (* ---- exactly one Done per handled message, ids in the order of handling ---------------------------------- *)
@@ -57,7 +58,7 @@ Definition ids_inv (st : node) : Prop := map snd (dones (outs st)) = map snd (ar
 
 Lemma nstep_ids_inv exec st op : no_done exec -> hp_inv st -> ids_inv st -> ids_inv (nstep exec st op).
 Proof.
-  intros Hn Hh Hi. unfold ids_inv in *. destruct op as [|c d]; simpl; [exact Hi|].
+  intros Hn Hh Hi. unfold ids_inv in *. destruct op as [|c d|c]; simpl; [exact Hi| |exact Hi].
   destruct (Nat.ltb_spec c (length (bufs st))) as [Hc|Hc]; [|exact Hi].
   destruct (feed_fix (nth c (bufs st) []) d) as [[hs r] s].
   destruct (hp st) as [t|] eqn:Eh; simpl.
